@@ -2623,3 +2623,32 @@ package sdf
 //@   ensures [the-union-looks-back-through-the-inverse-step] !isnil(r) ==> r.step == step.Inverse() && r.num == num && r.sdf == sdf
 //@   ensures [the-box-starts-from-the-operand-box] !isnil(r) ==> r.bb.Contains(v0[0]) && ord2(r.bb)
 //@ end
+
+//-----------------------------------------------------------------------------
+// C20: the circumcircle predicate of the Bowyer-Watson insertion
+
+//@ spec tcross(t Triangle2) = (t[1].X - t[0].X)*(t[2].Y - t[0].Y) - (t[1].Y - t[0].Y)*(t[2].X - t[0].X)
+
+//@ func Triangle2.Circumcenter
+//@   property C20
+//@   id equidistant
+//@   requires tcross(t) != 0
+//@   requires abs(t[0].Y - t[1].Y) >= 1e-12 || abs(t[1].Y - t[2].Y) >= 1e-12
+//@   let exacty = (abs(t[0].Y - t[1].Y) >= 1e-12 || t[0].Y == t[1].Y) && (abs(t[1].Y - t[2].Y) >= 1e-12 || t[1].Y == t[2].Y)
+//@   ensures [a-proper-triangle-has-a-circumcentre] isnil(r1)
+//@   ensures [as-far-from-the-first-vertex-as-from-the-second] exacty ==> r0.Sub(t[0]).Length2() == r0.Sub(t[1]).Length2()
+//@   ensures [and-from-the-third] exacty ==> r0.Sub(t[1]).Length2() == r0.Sub(t[2]).Length2()
+//@ end
+
+//@ func Triangle2.InCircumcircle
+//@   property C20
+//@   id inside-and-early-out
+//@   forall q v2.Vec
+//@   requires tcross(t) != 0
+//@   requires abs(t[0].Y - t[1].Y) >= 1e-12 || abs(t[1].Y - t[2].Y) >= 1e-12
+//@   requires q.X >= p.X
+//@   let c = t.Circumcenter()
+//@   let r2 = c[0].Sub(t[0]).Length2()
+//@   ensures [inside-means-within-the-circumradius-up-to-epsilon] inside <==> p.Sub(c[0]).Length2() - r2 <= 1e-12
+//@   ensures [done-means-no-later-point-in-x-order-can-be-inside] done ==> q.Sub(c[0]).Length2() > r2
+//@ end
